@@ -1,10 +1,295 @@
+//! Temporal ops for C14 / C15.
+//!
+//! * `zones`     : the implementation's own zone table (`chrono_tz::TZ_VARIANTS`).
+//! * `temporal`  : batch of `[kind, text]` items pushed through the real `TryFrom<&str>` / `FromStr`
+//!                 / `Display` implementations (and the `xsd:*` input conversions), each item in its own
+//!                 `catch_unwind`: parse, print, re-parse the print, compare, print again, components.
+//! * `datesweep` : every (y, m, d) of a year range x m in 0..=13 x d in 0..=32 through the real
+//!                 numeric constructor (`FeelDate::try_from((n, n, n))` and the FEEL built-in
+//!                 `date(y, m, d)` evaluated over a scope) and through the literal; validity and
+//!                 weekday per cell, compactly as one string per year.
+
+use dmntk_feel::context::FeelContext;
+use dmntk_feel::values::Value;
+use dmntk_feel::{FeelDate, FeelDateTime, FeelDaysAndTimeDuration, FeelNumber, FeelTime, FeelYearsAndMonthsDuration, Name, Scope};
 use serde_json::{json, Value as J};
-pub fn op_temporal(_case: &J) -> J {
-  json!({"harness_error": "not implemented"})
+use std::convert::TryFrom;
+use std::str::FromStr;
+
+fn take_panic() -> J {
+  let p = crate::LAST_PANIC.lock().ok().and_then(|mut g| g.take()).unwrap_or(json!({"msg": "<unknown>"}));
+  json!({ "panic": p })
 }
-pub fn op_datesweep(_case: &J) -> J {
-  json!({"harness_error": "not implemented"})
+
+fn guarded<F: FnOnce() -> J>(f: F) -> J {
+  match std::panic::catch_unwind(std::panic::AssertUnwindSafe(f)) {
+    Ok(j) => j,
+    Err(_) => take_panic(),
+  }
 }
+
+/// {op:"zones"} -> {"zones":[..]}
 pub fn op_zones(_case: &J) -> J {
-  json!({"harness_error": "not implemented"})
+  let names: Vec<String> = chrono_tz::TZ_VARIANTS.iter().map(|z| z.name().to_string()).collect();
+  json!({ "zones": names })
+}
+
+fn opt_b(b: Option<bool>) -> J {
+  match b {
+    Some(x) => json!(x),
+    None => J::Null,
+  }
+}
+
+fn one_date(text: &str) -> J {
+  match FeelDate::try_from(text) {
+    Err(_) => J::Null,
+    Ok(v) => {
+      let s1 = v.to_string();
+      let comps = json!([v.year(), v.month(), v.day()]);
+      match FeelDate::try_from(s1.as_str()) {
+        Err(_) => json!({"s": s1, "c": comps, "re": false}),
+        Ok(v2) => json!({"s": s1, "c": comps, "re": true, "eq": v == v2, "eq2": opt_b(v.equal(&v2)), "s2": v2.to_string()}),
+      }
+    }
+  }
+}
+
+fn time_comps(v: &FeelTime) -> J {
+  // the offset of a named zone depends on today's date for a time: not reported here
+  json!([v.hour(), v.minute(), v.second(), v.feel_time_zone()])
+}
+
+fn one_time(text: &str) -> J {
+  match FeelTime::from_str(text) {
+    Err(_) => J::Null,
+    Ok(v) => {
+      let s1 = v.to_string();
+      let comps = time_comps(&v);
+      let off = if v.feel_time_zone().is_none() { json!(v.feel_time_offset()) } else { J::Null };
+      match FeelTime::from_str(s1.as_str()) {
+        Err(_) => json!({"s": s1, "c": comps, "o": off, "re": false}),
+        Ok(v2) => json!({"s": s1, "c": comps, "o": off, "re": true, "eq": opt_b(v.equal(&v2)), "s2": v2.to_string()}),
+      }
+    }
+  }
+}
+
+fn one_date_time(text: &str) -> J {
+  match FeelDateTime::try_from(text) {
+    Err(_) => J::Null,
+    Ok(v) => {
+      let s1 = v.to_string();
+      let comps = json!([v.year(), v.month(), v.day(), v.hour(), v.minute(), v.second(), v.feel_time_zone()]);
+      let off = if v.feel_time_zone().is_none() { json!(v.feel_time_offset()) } else { J::Null };
+      match FeelDateTime::try_from(s1.as_str()) {
+        Err(_) => json!({"s": s1, "c": comps, "o": off, "re": false}),
+        Ok(v2) => {
+          let eq = guarded(|| opt_b(v.equal(&v2)));
+          json!({"s": s1, "c": comps, "o": off, "re": true, "eq": eq, "s2": v2.to_string()})
+        }
+      }
+    }
+  }
+}
+
+fn one_dtd(text: &str) -> J {
+  match FeelDaysAndTimeDuration::try_from(text) {
+    Err(_) => J::Null,
+    Ok(v) => {
+      let s1 = v.to_string();
+      let comps = json!([v.get_days().to_string(), v.get_hours(), v.get_minutes(), v.get_seconds()]);
+      match FeelDaysAndTimeDuration::try_from(s1.as_str()) {
+        Err(_) => json!({"s": s1, "c": comps, "re": false}),
+        Ok(v2) => json!({"s": s1, "c": comps, "re": true, "eq": v == v2, "s2": v2.to_string()}),
+      }
+    }
+  }
+}
+
+fn one_ymd(text: &str) -> J {
+  match FeelYearsAndMonthsDuration::try_from(text) {
+    Err(_) => J::Null,
+    Ok(v) => {
+      let s1 = v.to_string();
+      let comps = json!([v.years().to_string(), v.months().to_string(), v.as_months().to_string()]);
+      match FeelYearsAndMonthsDuration::try_from(s1.as_str()) {
+        Err(_) => json!({"s": s1, "c": comps, "re": false}),
+        Ok(v2) => json!({"s": s1, "c": comps, "re": true, "eq": v == v2, "s2": v2.to_string()}),
+      }
+    }
+  }
+}
+
+fn one_xsd(kind: &str, text: &str) -> J {
+  let r = match kind {
+    "xd" => Value::try_from_xsd_date(text),
+    "xt" => Value::try_from_xsd_time(text),
+    "xdt" => Value::try_from_xsd_date_time(text),
+    _ => Value::try_from_xsd_duration(text),
+  };
+  match r {
+    Err(_) => J::Null,
+    Ok(v) => crate::vj::from_value(&v),
+  }
+}
+
+/// {op:"temporal", items:[[kind, text], ...]} -> {"rs":[ null | {"s":print, "c":components, "re":reparse ok,
+/// "eq":equal, "s2":second print, "o":offset seconds?} | {"panic":..} ]}
+/// kinds: d, t, dt, dtd, ymd, dur (ymd first, then dtd: the order of `duration()`), xd, xt, xdt, xdur.
+pub fn op_temporal(case: &J) -> J {
+  let empty = vec![];
+  let items = case.get("items").and_then(|v| v.as_array()).unwrap_or(&empty);
+  let mut rs = Vec::with_capacity(items.len());
+  for it in items {
+    let kind = it.get(0).and_then(|v| v.as_str()).unwrap_or("");
+    let text = it.get(1).and_then(|v| v.as_str()).unwrap_or("");
+    let r = guarded(|| match kind {
+      "d" => one_date(text),
+      "t" => one_time(text),
+      "dt" => one_date_time(text),
+      "dtd" => one_dtd(text),
+      "ymd" => one_ymd(text),
+      "dur" => {
+        let a = one_ymd(text);
+        if a.is_null() {
+          let mut b = one_dtd(text);
+          if let J::Object(ref mut m) = b {
+            m.insert("k".to_string(), json!("dtd"));
+          }
+          b
+        } else {
+          let mut a = a;
+          if let J::Object(ref mut m) = a {
+            m.insert("k".to_string(), json!("ymd"));
+          }
+          a
+        }
+      }
+      "xd" | "xt" | "xdt" | "xdur" => one_xsd(kind, text),
+      _ => json!({"harness_error": format!("unknown temporal kind '{}'", kind)}),
+    });
+    if r.get("harness_error").is_some() {
+      return r;
+    }
+    rs.push(r);
+  }
+  json!({ "rs": rs })
+}
+
+fn num(n: i64) -> FeelNumber {
+  FeelNumber::from_i128(n as i128)
+}
+
+/// {op:"datesweep", y0, y1} (inclusive) -> {"years":[[y, ctor, lit, ord_bad], ...]}
+/// `ctor`: 14*33 characters, month-major (m in 0..=13, d in 0..=32): '.' rejected by both the tuple
+///   constructor and the FEEL built-in, '1'..'7' accepted by both with components equal to the input and
+///   that weekday, '?' accepted but weekday unavailable, 'X' accepted with different components,
+///   'D' the tuple constructor and the built-in disagree, 'P' panic.
+/// `lit`: same layout for the literal "YYYY-MM-DD": '.' rejected, '1' accepted with equal components,
+///   'X' accepted with different components, 'P' panic.
+/// `ord_bad`: consecutive constructor-accepted dates (in sweep order) for which `prev < cur` was not true
+///   or `cur < prev`, `prev = cur` was not false: [[prev, cur, lt, gt, eq], ...] (at most 3).
+pub fn op_datesweep(case: &J) -> J {
+  let y0 = case.get("y0").and_then(|v| v.as_i64()).unwrap_or(2000);
+  let y1 = case.get("y1").and_then(|v| v.as_i64()).unwrap_or(2000);
+  let scope = Scope::default();
+  {
+    let mut ctx = FeelContext::default();
+    ctx.set_entry(&Name::from("y"), Value::Number(num(0)));
+    ctx.set_entry(&Name::from("m"), Value::Number(num(0)));
+    ctx.set_entry(&Name::from("d"), Value::Number(num(0)));
+    scope.push(ctx);
+  }
+  let node = match dmntk_feel_parser::parse_expression(&scope, "date(y, m, d)", false) {
+    Ok(n) => n,
+    Err(e) => return json!({"harness_error": format!("cannot parse date(y, m, d): {}", e)}),
+  };
+  let evaluator = match dmntk_feel_evaluator::prepare(&node) {
+    Ok(e) => e,
+    Err(e) => return json!({"harness_error": format!("cannot prepare date(y, m, d): {}", e)}),
+  };
+  let mut years = vec![];
+  let mut cells: u64 = 0;
+  for y in y0..=y1 {
+    let mut ctor = String::with_capacity(14 * 33);
+    let mut lit = String::with_capacity(14 * 33);
+    let mut ord_bad = vec![];
+    let mut prev: Option<FeelDate> = None;
+    for m in 0..=13i64 {
+      for d in 0..=32i64 {
+        cells += 1;
+        // numeric constructor, both ways
+        let c = std::panic::catch_unwind(std::panic::AssertUnwindSafe(|| {
+          let a = FeelDate::try_from((num(y), num(m), num(d))).ok();
+          let sc = Scope::default();
+          let mut ctx = FeelContext::default();
+          ctx.set_entry(&Name::from("y"), Value::Number(num(y)));
+          ctx.set_entry(&Name::from("m"), Value::Number(num(m)));
+          ctx.set_entry(&Name::from("d"), Value::Number(num(d)));
+          sc.push(ctx);
+          let b = match evaluator(&sc) {
+            Value::Date(x) => Some(x),
+            _ => None,
+          };
+          (a, b)
+        }));
+        match c {
+          Err(_) => {
+            let _ = take_panic();
+            ctor.push('P');
+          }
+          Ok((a, b)) => match (a, b) {
+            (None, None) => ctor.push('.'),
+            (Some(a), Some(b)) => {
+              if a != b {
+                ctor.push('D');
+              } else if a.year() as i64 != y || a.month() as i64 != m || a.day() as i64 != d {
+                ctor.push('X');
+              } else {
+                let wd = std::panic::catch_unwind(std::panic::AssertUnwindSafe(|| a.weekday()));
+                match wd {
+                  Err(_) => {
+                    let _ = take_panic();
+                    ctor.push('P');
+                  }
+                  Ok(Some(n)) if (1..=7).contains(&n) => ctor.push(char::from(b'0' + n as u8)),
+                  Ok(_) => ctor.push('?'),
+                }
+                if let Some(p) = &prev {
+                  let lt = p < &a;
+                  let gt = p > &a;
+                  let eq = p == &a;
+                  if (!lt || gt || eq) && ord_bad.len() < 3 {
+                    ord_bad.push(json!([p.to_string(), a.to_string(), lt, gt, eq]));
+                  }
+                }
+                prev = Some(a);
+              }
+            }
+            _ => ctor.push('D'),
+          },
+        }
+        // literal
+        let text = if y < 0 { format!("-{:04}-{:02}-{:02}", -y, m, d) } else { format!("{:04}-{:02}-{:02}", y, m, d) };
+        let l = std::panic::catch_unwind(std::panic::AssertUnwindSafe(|| FeelDate::try_from(text.as_str()).ok()));
+        match l {
+          Err(_) => {
+            let _ = take_panic();
+            lit.push('P');
+          }
+          Ok(None) => lit.push('.'),
+          Ok(Some(v)) => {
+            if v.year() as i64 == y && v.month() as i64 == m && v.day() as i64 == d {
+              lit.push('1');
+            } else {
+              lit.push('X');
+            }
+          }
+        }
+      }
+    }
+    years.push(json!([y, ctor, lit, ord_bad]));
+  }
+  json!({"years": years, "cells": cells})
 }
